@@ -173,7 +173,9 @@ def tarjan_lowlink(rep: Report, prog: Program, vf, visit_name: str, g0: str, vis
                 atoms.update(collect_atoms(vcfg.nodes[n].expr))
         vis = [t for t, a in atoms.items() if isinstance(a, ast.Compare) and isinstance(a.ops[0], (ast.In, ast.NotIn)) and norm(a.left) == w and norm(a.comparators[0]) == visited_set]
         ons = [t for t, a in atoms.items() if isinstance(a, ast.Compare) and isinstance(a.ops[0], (ast.In, ast.NotIn)) and norm(a.left) == w and t not in vis]
-        if len(vis) != 1 or len(ons) != 1 or len(atoms) != 2:
+        if len(vis) == 1 and not ons and len(atoms) == 1:
+            ons = [None]
+        if len(vis) != 1 or len(ons) != 1 or len(atoms) > 2:
             raise AnalysisError(f"C19-D2: {vf.loc(l)} successor loop guards {sorted(atoms)} are not (visited?, on-stack?) tests; idiom not recognised")
         # low-link updates: stores  X[v] = min(X[v], ...)
         def lowers(n):
@@ -186,7 +188,9 @@ def tarjan_lowlink(rep: Report, prog: Program, vf, visit_name: str, g0: str, vis
             for onstack in (False, True):
                 if not visited and onstack:
                     continue     # an unvisited vertex is never on the stack
-                reach = walk(vcfg, be, Env(atoms={vis[0]: visited, ons[0]: onstack}), loop_header_stop=hdr, unknown='both')
+                at = {vis[0]: visited}
+                if ons[0] is not None: at[ons[0]] = onstack
+                reach = walk(vcfg, be, Env(atoms=at), loop_header_stop=hdr, unknown='both')
                 ex = bool(set(ups) & reach)
                 want = (not visited) or onstack
                 if ex != want:
@@ -197,7 +201,7 @@ def tarjan_lowlink(rep: Report, prog: Program, vf, visit_name: str, g0: str, vis
         for n in ups:
             st = vcfg.nodes[n].stmt
             other = [a for a in st.value.args if norm(a) != norm(st.targets[0])]
-            reach_unvisited = walk(vcfg, be, Env(atoms={vis[0]: False, ons[0]: False}), loop_header_stop=hdr, unknown='both')
+            reach_unvisited = walk(vcfg, be, Env(atoms={vis[0]: False}), loop_header_stop=hdr, unknown='both')
             if n in reach_unvisited and other:
                 low = norm(st.targets[0].value)
                 ok = norm(other[0]) == f"{low}[{w}]"
